@@ -830,6 +830,10 @@ impl DlWorld {
                                 (Kind::Map, LOp::Clr) => {
                                     MapOperationEncoder.encode(MapOperation::<i32, i32>::Clear, &mut buf).expect("encode");
                                 }
+                                (_, LOp::Bad) => {
+                                    // bytes that are no operation frame at all
+                                    buf.extend_from_slice(&[0xff; 16]);
+                                }
                                 _ => {}
                             }
                             if let Some(tx) = con.tx.as_mut() {
@@ -1376,6 +1380,13 @@ pub fn run_main() {
                 for mode in [Mode::Eager, Mode::Burst, Mode::SlowRead] {
                     cfgs.push(Cfg { kind: Kind::Map, script: script.clone(), consumers: *consumers, remote_buf, dl_buf, sock_credit: if remote_buf == 16 { 5 } else { 0 }, budget: 64, mode, ticks: 0, no_final_stop: false, seed: 0, ignore_bad: true });
                 }
+            }
+        }
+        // a consumer that writes garbage on its command channel harms nobody but itself
+        let garbage: Vec<(usize, Step)> = vec![(1, att(true)), (2, att(false)), (1, Step::Cmd(LOp::Bad)), (2, Step::Cmd(LOp::Upd(3, 1))), (0, Step::Lane(LOp::Upd(1, 101))), (2, Step::Cmd(LOp::Upd(4, 2)))];
+        for (remote_buf, dl_buf) in [(16usize, 16usize), (4096, 4096)] {
+            for mode in [Mode::Eager, Mode::SlowRead] {
+                cfgs.push(Cfg { kind: Kind::Map, script: garbage.clone(), consumers: 2, remote_buf, dl_buf, sock_credit: if remote_buf == 16 { 5 } else { 0 }, budget: 64, mode, ticks: 0, no_final_stop: false, seed: 0, ignore_bad: true });
             }
         }
         // ... and with the strategy that aborts: the runtime ends, and says so to its consumers
